@@ -3,6 +3,7 @@
 package swap
 
 import (
+	"time"
 	"encoding/json"
 	"errors"
 	"sync"
@@ -121,6 +122,9 @@ type vScenario struct {
 	role   int
 	liquid bool
 	id     string
+	// logicalNested: goroutines started by the recovery goroutines themselves (the rpc watcher's check at
+	// registration) run as logical goroutines during a restart instead of being recorded only
+	logicalNested bool
 }
 
 // vBuild wires a service holding exactly one active swap in the given state.
@@ -235,7 +239,16 @@ func (sc *vScenario) vRestart() {
 	sc.env.msgMgr.senders = map[string]messages.StoppableMessenger{}
 	sc.svc = NewSwapService(sc.env.services)
 	zzverif.GoInline(true)
+	if sc.logicalNested {
+		zzverif.GoLogical(true)
+	}
 	sc.svc.RecoverSwaps()
+	if sc.logicalNested {
+		zzverif.GoLogical(false)
+		if !zzverif.Symbolic() {
+			time.Sleep(300 * time.Millisecond) // natively the nested goroutines are real: let them finish
+		}
+	}
 	zzverif.GoInline(false)
 	if sm, err := sc.svc.GetActiveSwap(sc.id); err == nil {
 		sc.sm = sm
